@@ -134,6 +134,11 @@ pub fn oracle(ctx: &mut Ctx, c: &Case) -> Check {
         run_decode(&c.spec, &n.render(), "padded-descriptor-lengths")?;
         ctx.count("layout:padded-descriptor-lengths");
     }
+    // streamPriority is a field the library has no place for: any value must be ignored on decode
+    let prio = 1 + (crate::engine::fp_of(&c.spec) % 31) as usize;
+    if let Some(n) = with_esds_pad(&c.spec, prio << 8) {
+        run_decode(&c.spec, &n.render(), "esds-stream-priority")?;
+    }
     if let Some(n) = with_hvcc_zero_reserved(&c.spec) {
         run_decode(&c.spec, &n.render(), "hvcC-reserved-bits-zero")?;
     }
